@@ -111,10 +111,10 @@ pub fn read_facts_and_rules(file_name: &str) -> Result<Vec<String>, String> {
                         match check_last_char(&line, line_number) {
                             Some(msg) => { return Err(msg); },
                             None => {
-                                // Keep the lines apart. (The line break
-                                // separated two words.)
+                                // Keep the lines of a rule apart. (The
+                                // line break separated two words.)
                                 long_line += &line;
-                                long_line += " ";
+                                if !line.ends_with('.') { long_line += " "; }
                             },
                         }
                         rules.push(line);
